@@ -50,11 +50,11 @@ type childRun struct {
 	complete bool
 }
 
-func runChild(part, dir string) *childRun {
+func runChild(part string, sub int, dir string) *childRun {
 	c := &childRun{part: part}
-	outFile := filepath.Join(dir, part+".ndjson")
+	outFile := filepath.Join(dir, fmt.Sprintf("%s-%d.ndjson", part, sub))
 	cmd := exec.Command(os.Args[0], "-test.run=^TestChild$", "-test.count=1", "-test.timeout="+ev.Pick("15m", "60m"))
-	cmd.Env = append(os.Environ(), "VERIF_C08_PART="+part, "VERIF_C08_OUT="+outFile, "GORACE=halt_on_error=0")
+	cmd.Env = append(os.Environ(), "VERIF_C08_PART="+part, fmt.Sprintf("VERIF_C08_SUB=%d", sub), "VERIF_C08_OUT="+outFile, "GORACE=halt_on_error=0")
 	var buf bytes.Buffer
 	cmd.Stdout, cmd.Stderr = &buf, &buf
 	start := time.Now()
@@ -99,14 +99,37 @@ func raceSite(block string) string {
 	if strings.Contains(acc, "schemes/enc/v1.readHeader") || strings.Contains(acc, "schemes/enc/v1.processSegments") {
 		return "enc-v1-bufpool"
 	}
+	if strings.Contains(acc, "github.com/dapr/kit/cron.") { // the parser's package-level tables are the only state its calls share
+		return "cron-parser"
+	}
 	if m := reKitFrame.FindStringSubmatch(acc); m != nil {
 		return strings.NewReplacer("/", "-", "(", "", ")", "", "*", "").Replace(m[1])
 	}
 	return "harness-or-runtime"
 }
 
+var reFatalMap = regexp.MustCompile(`fatal error: concurrent map (read and map write|writes|iteration and map write)`)
+
 func parseRaces(out string) []raceReport {
 	var rs []raceReport
+	// the runtime's own detection of unsynchronised map access kills the child: a data race, too
+	if loc := reFatalMap.FindStringIndex(out); loc != nil {
+		text := out[loc[0]:]
+		if len(text) > 6000 {
+			text = text[:6000]
+		}
+		first := text
+		if i := strings.Index(text, "\n\ngoroutine "); i >= 0 { // the crashing goroutine's stack comes first
+			if j := strings.Index(text[i+2:], "\n\n"); j >= 0 {
+				first = text[:i+2+j]
+			}
+		}
+		site := raceSite(first)
+		if site == "harness-or-runtime" {
+			site = raceSite(text)
+		}
+		rs = append(rs, raceReport{site: site, text: text})
+	}
 	parts := strings.Split(out, "WARNING: DATA RACE")
 	for _, p := range parts[1:] {
 		if i := strings.Index(p, "=================="); i >= 0 {
@@ -139,6 +162,14 @@ func findingKey(why string, reset tv.M, evLine tv.M) string {
 			return "bytepool:stale-bytes-visible:put-shortened"
 		}
 		return "bytepool:stale-bytes-visible"
+	case why == "a slice handed out shares memory with a live slice" || why == "a live slice no longer holds what its owner wrote":
+		if m, _ := desc["mode"].(string); m == "resize-grow" {
+			return "bytepool:resize-recycles-live-slice"
+		}
+		if strings.Contains(why, "shares") {
+			return "bytepool:live-slices-share-memory"
+		}
+		return "bytepool:live-slice-content-lost"
 	case why == "Get returned a non-empty slice":
 		return "bytepool:get-returned-non-empty-slice"
 	case strings.HasPrefix(why, "concurrent "):
@@ -170,6 +201,8 @@ func TestCheck(t *testing.T) {
 		{module: "BytePool", cfg: ev.Pick("MC_bytepool.cfg", "MC_bytepool_big.cfg"), workers: ev.Pick(4, 8)},
 		{module: "BytePool", cfg: "MC_bytepool_asfound_fullput.cfg", workers: 2},
 		{module: "BytePool", cfg: "MC_bytepool_defect.cfg", wantBad: "stale bytes visible", workers: 1},
+		{module: "BytePool", cfg: ev.Pick("MC_bytepool_grow.cfg", "MC_bytepool_grow_big.cfg"), workers: ev.Pick(4, 8)},
+		{module: "BytePool", cfg: "MC_bytepool_grow_defect.cfg", wantBad: "shares memory with a live slice", workers: 1},
 	}
 	if thorough {
 		mcs = append(mcs, &mcRun{module: "BufPool", cfg: "MC_big_nohavoc.cfg", workers: 8})
@@ -192,12 +225,16 @@ func TestCheck(t *testing.T) {
 		}()
 	}
 	// 2. the real code, in children (seq and gated use one P each; free uses all)
+	// (the cron children each have their own never-seen spellings of the month / day names)
 	parts := []string{"seq", "gated", "free"}
+	for i := 0; i < ev.Pick(3, 8); i++ {
+		parts = append(parts, "cron")
+	}
 	children := make([]*childRun, len(parts))
 	for i, p := range parts {
 		i, p := i, p
 		wg.Add(1)
-		go func() { defer wg.Done(); children[i] = runChild(p, dir) }()
+		go func() { defer wg.Done(); children[i] = runChild(p, i, dir) }()
 	}
 	wg.Wait()
 
@@ -240,7 +277,9 @@ func TestCheck(t *testing.T) {
 				raceSeen[r.site] = r
 			}
 		}
-		if !c.complete {
+		if !c.complete && reFatalMap.MatchString(c.out) && len(races) > 0 {
+			fmt.Printf("child %s was killed by the runtime: %s\n", c.part, reFatalMap.FindString(c.out))
+		} else if !c.complete {
 			e.Inconclusive(fmt.Sprintf("child %s did not complete (%d race reports): %v\n%s", c.part, len(races), c.err, tailStr(c.out, 3000)))
 		} else if c.err != nil && len(races) == 0 {
 			e.Inconclusive(fmt.Sprintf("child %s failed without a race report: %v\n%s", c.part, c.err, tailStr(c.out, 3000)))
@@ -301,7 +340,7 @@ func TestCheck(t *testing.T) {
 	}
 	// (the millions of cheap pool cycles and calc calls of the background load are reported separately, not counted here)
 	evals := counts["seq_pipelines"] + 2*counts["two_stream_scenarios"] + counts["gated_pipelines"] + counts["free_pipelines"] +
-		counts["registry_calls"] + counts["bytepool_seq_cases"]
+		counts["registry_calls"] + counts["bytepool_seq_cases"] + counts["bytepool_resize_cases"] + counts["cron_name_calls"]
 	e.Set("evaluations", evals)
 	e.Set("rule", "every case = one operation on the real code whose result is compared with the same operation run alone: "+
 		"(a) one Encrypt->Decrypt pipeline alone with every BufPool.Put overwriting the buffer with a poison pattern (2 ciphers x message lengths 0/1/100/65535/65536/65537 (+128K, 128K+1, 300K thorough) x 6 ways the header reaches readHeader (one read, 3 pieces, byte-wise, +1/+37/all payload bytes in the header's read) x key-wrap algorithms (ident, A256KW, A256CBC-NOPAD, A128CBC-NOPAD, RSA-OAEP-256 through kit/crypto; rotating in quick, all in thorough)), and the same without poison; "+
@@ -310,7 +349,9 @@ func TestCheck(t *testing.T) {
 		"(d) waves of 8 free-running pipelines on all cores with timing jitter and slow key unwrap, half with poison; "+
 		"(e) rounds of 8 goroutines released together calling logger.NewLogger on one fresh name (every 4th round: two names), then a later call; "+
 		"(f) ByteSlicePool: MinCap {1,7,64,1000,4096,65536} x requested capacity x bytes written x length at Put (full, 0, half, through Resize) x how the next holder looks (Resize to cap-1, re-slice to cap, own bytes then re-slice), and concurrent get/put cycles; "+
-		"(g) cron.ParseStandard/Parser.Parse and kit/crypto symmetric calls made concurrently vs alone. "+
+		"(g) cron.ParseStandard/Parser.Parse and kit/crypto symmetric calls made concurrently vs alone; "+
+		"(h) default cron parser name tables: in separate processes, waves in which 4 goroutines parse specs with never-before-seen mixed-case spellings (all 7 capitalisations of the 12 month and 7 day names, alone / in lists / in ranges with steps, standard and seconds parser) while 4 goroutines parse lower-case named specs, ordered by nothing but the wave's start, answers compared with the lower-case spec parsed alone; race reports and the runtime's fatal concurrent-map error become race traces; "+
+		"(i) ByteSlicePool ownership across a growing Resize: a := Get; b := Resize(a, cap+{0,1,MinCap}); a kept and written, or Put; c := Get; d := Get; distinct content written into each; memory blocks numbered by address overlap; MinCap {1,7,64,4096} x written {1,MinCap,MinCap+5}, each repeated (sync.Pool drops a Put at random under -race). "+
 		"non-trivial = a pipeline scenario with at least two pipelines, or a single pipeline under poison; a ByteSlicePool case in which the slice was really recycled; distinct by scenario parameters (and schedule for gated runs)")
 	fmt.Printf("recorded %d runs, %d events, %d race report site(s)\n", b.Len(), b.Lines(), len(sites))
 	if b.Len() == 0 {
@@ -329,7 +370,7 @@ func TestCheck(t *testing.T) {
 	rejected := map[int]bool{}
 	perKey := map[string]int{}
 	// the replay kept per key is the first one reported: prefer the sequential child, then the shortest run
-	prio := map[string]int{"seq": 0, "gated": 1, "free": 2, "race-detector": 3}
+	prio := map[string]int{"seq": 0, "gated": 1, "cron": 2, "free": 3, "race-detector": 4}
 	sort.SliceStable(rej, func(i, j int) bool {
 		a, c := rej[i], rej[j]
 		if prio[origin[a.Trace]] != prio[origin[c.Trace]] {
@@ -467,6 +508,21 @@ func selfTest(e *ev.Evidence, b *tv.Batch, resets []tv.M, rejected map[int]bool)
 			tc{"stale_bytes_rejected", mutate(p, `"ev":"bview"`, `"foreign":0`, `"foreign":3`, false), true})
 	} else {
 		e.Inconclusive("binding self-test: no accepted ByteSlicePool case to start from")
+	}
+	if p := pick("bytepool", `"via":"resize"`); p != nil {
+		var shared [][]byte
+		for _, l := range p {
+			if bytes.Contains(l, []byte(`"ev":"bown"`)) && bytes.Contains(l, []byte(`"s":4,`)) {
+				l = regexp.MustCompile(`"mem":\d+`).ReplaceAll(l, []byte(`"mem":2`)) // d now sits on b's memory
+			}
+			shared = append(shared, l)
+		}
+		cases = append(cases,
+			tc{"resize_sequence_unmodified_accepted", p, false},
+			tc{"slice_on_live_memory_rejected", shared, true},
+			tc{"live_slice_content_lost_rejected", mutate(p, `"ev":"bread"`, `"ok":true`, `"ok":false`, false), true})
+	} else {
+		e.Inconclusive("binding self-test: no accepted Resize sequence to start from")
 	}
 	sb := &tv.Batch{}
 	for _, c := range cases {
